@@ -62,6 +62,16 @@ CHECKS["C04"] = dict(
     technique="Lean 4 proof (plan equality, fusion with HAVING, spec invariance) + correspondence + metamorphic variants on DuckDB",
 )
 
+CHECKS["C16"] = dict(
+    category="proof",
+    text="Lean 4 theorem C16_string_one_literal: for EVERY value and every continuation, the formatted string/date value lexes as exactly one string literal whose content is the value (round-trip), "
+         "so two values give token streams differing in that literal only; unquoted values consist of identifier characters; yes/no is one keyword; placeholders are substituted in one pass. "
+         "Tie: format_value/interpolate vs the Lean functions byte-exact on hostile + random values; lexer model vs DuckDB. Search: compile() in 3/7 dialects, sqlglot tree vs benign tree up to one literal, DuckDB data round-trip, cross-parameter placeholder values.",
+    design_ref="DESIGN.md §4 C16",
+    note="Model covers standard '' escaping; backslash/adjacent-literal dialects, the Jinja control-tag path and relative-date phrases are known findings (F14c/d/e) listed in known_findings.json; date escaping and NaN/Infinity were fixed in /repo. Number formatting relies on Python's str(float); accepted outputs are checked against a Lean numeric-literal recogniser.",
+    technique="Lean 4 proof over List Char (escape/scan induction) + byte-exact correspondence + sqlglot tree / DuckDB round-trip oracle",
+)
+
 NOT_APPLICABLE = {}
 
 
